@@ -875,7 +875,7 @@ func pullIDRemovalWhilePaused(r *vk.Run) {
 	idx := 0
 	for _, bp := range []bool{false, true} {
 		for _, uo := range []bool{false, true} {
-			for _, pauseAfter := range []int{0, 1} {
+			for _, pauseAfter := range []int{0, 1, 2} {
 				idx++
 				if !r.Mine(idx) {
 					continue
@@ -884,7 +884,16 @@ func pullIDRemovalWhilePaused(r *vk.Run) {
 					continue
 				}
 				base := baseline()
-				col := resource.NewCollection(resource.WithClock(clk{}), resource.WithInitialRecord("b", &tat{DefaultString: "b-init"}))
+				copts := []resource.Option{resource.WithClock(clk{}), resource.WithInitialRecord("b", &tat{DefaultString: "b-init"})}
+				existing := pauseAfter == 2 // second history: x exists already; it is deleted, re-created and deleted again
+				if existing {
+					copts = append(copts, resource.WithInitialRecord("x", &tat{DefaultString: "x0"}))
+					pauseAfter = 1
+					if uo {
+						pauseAfter = 0
+					}
+				}
+				col := resource.NewCollection(copts...)
 				ctx, cancel := context.WithCancel(context.Background())
 				o := subOpts{Kind: "pullid", BP: bp, UpdatesOnly: uo, StopAfter: pauseAfter}
 				s := &rsub{o: o, cancel: cancel, resume: make(chan struct{})}
@@ -892,6 +901,16 @@ func pullIDRemovalWhilePaused(r *vk.Run) {
 				s.consume()
 				vk.Quiesce()
 				tw := vk.Go(func() {
+					if existing {
+						// two updates first: they occupy the two hand-over stages, what follows meets in the lossy stage
+						col.Update("x", &tat{DefaultString: "x0a"})
+						col.Update("x", &tat{DefaultString: "x0b"})
+						col.Delete("x")
+						col.Add("x", &tat{DefaultString: "x1"})
+						col.Delete("x")
+						col.Update("b", &tat{DefaultString: "after"})
+						return
+					}
 					col.Add("x", &tat{DefaultString: "x1"})
 					col.Add("y", &tat{DefaultString: "y1"})
 					col.Add("z", &tat{DefaultString: "z1"})
@@ -907,8 +926,11 @@ func pullIDRemovalWhilePaused(r *vk.Run) {
 				}
 				r.Eval(1)
 				r.Count("pullid-removal-while-paused-scenarios", 1)
-				r.Distinct(fmt.Sprintf("pullidpaused:%v:%v:%d", bp, uo, pauseAfter))
+				r.Distinct(fmt.Sprintf("pullidpaused:%v:%v:%d:%v", bp, uo, pauseAfter, existing))
 				desc := fmt.Sprintf("PullID(x) (%v) opened before x exists; the consumer pauses after %d event(s) while Add(x), Add(y), Add(z), Delete(x), Update(b) are made, then receives again", o, pauseAfter)
+				if existing {
+					desc = fmt.Sprintf("PullID(x) (%v) opened on the existing item x; the consumer pauses after %d event(s) while Update(x), Update(x), Delete(x), Add(x), Delete(x), Update(b) are made, then receives again", o, pauseAfter)
+				}
 				replay := map[string]any{"bp": bp, "updatesOnly": uo, "pauseAfter": pauseAfter}
 				if !tw.Done() {
 					r.Violation("C10/stall/pullid-removal-paused/"+o.class(), desc+": the writer has not returned at the quiescent point\n"+vk.DescribeGs(vk.LibraryGoroutines(gs, base)), replay)
